@@ -69,7 +69,11 @@ def material(rng, kind):
 
 
 def rparams(rng, n, tag):
-    return [(rng.getrandbits(32), "g_%s%d_%s" % (tag, i, "x" * rng.randint(0, 5)), rng.randrange(16), rng.randint(1, 4)) for i in range(n)]
+    out = [(rng.getrandbits(32), "g_%s%d_%s" % (tag, i, "x" * rng.randint(0, 5)), rng.randrange(16), rng.randint(1, 4)) for i in range(n)]
+    if out and rng.random() < 0.4:
+        # a second parameter named by a proper prefix of the first one's name (e.g. g_Sampler / g_SamplerNormal)
+        out.append((rng.getrandbits(32), out[0][1][:max(3, len(out[0][1]) - rng.randint(1, 4))], rng.randrange(16), rng.randint(1, 4)))
+    return out
 
 
 def package(rng):
@@ -93,7 +97,7 @@ def package(rng):
     if aliases and rng.random() < 0.5:
         aliases.append((sels[0], nn - 1))          # a selector carried by a node and by an alias: the node wins
     nmp = rng.randint(0, 3)
-    p = {"dx11": rng.random() < 0.7, "vs": [shader(True, i) for i in range(nvs)], "ps": [shader(False, i) for i in range(nps)],
+    p = {"share_prefixes": rng.random() < 0.6, "dx11": rng.random() < 0.7, "vs": [shader(True, i) for i in range(nvs)], "ps": [shader(False, i) for i in range(nps)],
          "mat_params": [(rng.getrandbits(32), 16 * i, 16) for i in range(nmp)],
          "defaults": [rfloat(rng) for _ in range(4 * max(nmp, 1))] if rng.random() < 0.5 else None,
          "params": [rparams(rng, rng.randint(0, 2), "g%d" % k) for k in range(4)],
